@@ -782,3 +782,34 @@ lp:
   %7 = landingpad { i8*, i32 } cleanup
   ret void
 }
+;;; ATOM inst/aggregate-index-leading-zeros
+%T = type { i1, i8, i16, i32, i64, half, float, double, i16, fp128, float, i8*, <2 x i8> }
+
+define float @f(%T %x, [12 x %T]* %p) {
+  %a = extractvalue %T %x, 010
+  %b = extractvalue %T %x, 08
+  %c = insertvalue %T %x, float %a, 010
+  %d = insertvalue %T %c, i16 %b, 0008
+  %e = extractvalue [12 x %T] undef, 011, 010
+  %g = getelementptr [12 x %T], [12 x %T]* %p, i32 00, i32 011, i32 010
+  %h = load float, float* %g
+  %s = fadd float %a, %e
+  %t = fadd float %s, %h
+  ret float %t
+}
+;;; ATOM inst/gep-into-vector
+@v = global <4 x i32> zeroinitializer
+@w = global { i8, <8 x float> } zeroinitializer
+@p0 = global i32* getelementptr (<4 x i32>, <4 x i32>* @v, i64 0, i64 1)
+@p1 = global float* getelementptr ({ i8, <8 x float> }, { i8, <8 x float> }* @w, i64 0, i32 1, i64 7)
+
+define i32 @f(<4 x i32>* %q, { i8, <8 x float> }* %r) {
+  %a = getelementptr <4 x i32>, <4 x i32>* %q, i64 0, i64 2
+  %b = getelementptr { i8, <8 x float> }, { i8, <8 x float> }* %r, i64 0, i32 1, i64 3
+  %c = getelementptr <4 x i32>, <4 x i32>* %q, i64 1, i64 3
+  %x = load i32, i32* %a
+  %y = load float, float* %b
+  %z = load i32, i32* %c
+  %s = add i32 %x, %z
+  ret i32 %s
+}
